@@ -28,6 +28,8 @@ PROFILES = [
     {'PERSONALITY': 0, 'PARSE_COOKIES': 0, 'PARSE_AUTH': 0, 'RES_DECOMP': 0},
     {'PERSONALITY': 9, 'MULTIPART_PARSER': 1, 'EXTRACT_FILES': 8, 'AUTO_DESTROY': 1},
     {'PERSONALITY': 1, 'MULTIPART_PARSER': 1, 'EXTRACT_FILES': 8, 'URLENC_PARSER': 1},
+    {'PERSONALITY': 2, 'TX_CFG': 1, 'URLENC_PARSER': 1, 'AUTO_DESTROY': 1},
+    {'PERSONALITY': 9, 'TX_CFG': 1, 'MULTIPART_PARSER': 1, 'REQ_DECOMP': 1},
 ]
 
 OKREQ = b'GET /c HTTP/1.1\r\nHost: h\r\n\r\n'
